@@ -227,6 +227,7 @@ template<class T> struct ListCase : NodeCase<List<T> >
     else if(!strcmp(o, "app")) { T& r = l->append(T(atoi(t.v[2]))); print_ref(*l, r); B::rit = (const char*)&r - __builtin_offsetof(typename C::Item, value); }
     else if(!strcmp(o, "pre")) { T& r = l->prepend(T(atoi(t.v[2]))); print_ref(*l, r); B::rit = (const char*)&r - __builtin_offsetof(typename C::Item, value); }
     else if(!strcmp(o, "apps")) { for(int k = 2; k < t.n; ++k) l->append(T(atoi(t.v[k]))); printf("-"); }
+    else if(!strcmp(o, "appr")) { long a = atol(t.v[2]), n = atol(t.v[3]), d = atol(t.v[4]); for(long k = 0; k < n; ++k) l->append(T((int)(a + k * d))); printf("-"); }
     else if(!strcmp(o, "ins")) {
       long k = atol(t.v[2]);
       if(k < 0 || (usize)k > l->size()) printf("skip");
@@ -234,11 +235,11 @@ template<class T> struct ListCase : NodeCase<List<T> >
     }
     else if(!strcmp(o, "insl")) {
       long k = atol(t.v[2]);
-      if(!idx(t.v[3], j) || j == i || k < 0 || (usize)k > l->size()) printf("skip");
+      if(!idx(t.v[3], j) || k < 0 || (usize)k > l->size()) printf("skip");
       else { typename C::Iterator r = l->insert(at(*l, k), *B::v[j]); print_it("it", *l, r); B::set_it(*l, r); }
     }
-    else if(!strcmp(o, "appl")) { if(!idx(t.v[2], j) || j == i) printf("skip"); else { l->append(*B::v[j]); printf("-"); } }
-    else if(!strcmp(o, "prel")) { if(!idx(t.v[2], j) || j == i) printf("skip"); else { l->prepend(*B::v[j]); printf("-"); } }
+    else if(!strcmp(o, "appl")) { if(!idx(t.v[2], j)) printf("skip"); else { l->append(*B::v[j]); printf("-"); } }
+    else if(!strcmp(o, "prel")) { if(!idx(t.v[2], j)) printf("skip"); else { l->prepend(*B::v[j]); printf("-"); } }
     else if(!strcmp(o, "rem")) {
       long k = atol(t.v[2]);
       if(k < 0 || (usize)k >= l->size()) printf("skip");
@@ -249,11 +250,11 @@ template<class T> struct ListCase : NodeCase<List<T> >
     else if(!strcmp(o, "remb")) { if(l->size() == 0) printf("skip"); else { typename C::Iterator r = l->removeBack(); print_it("it", *l, r); B::set_it(*l, r); } }
     else if(!strcmp(o, "find")) { typename C::Iterator r = l->find(T(atoi(t.v[2]))); print_it("it", *l, r); B::set_it(*l, r); }
     else if(!strcmp(o, "clear")) { l->clear(); printf("-"); }
-    else if(!strcmp(o, "swap")) { if(!idx(t.v[2], j) || j == i) printf("skip"); else { l->swap(*B::v[j]); printf("-"); } }
+    else if(!strcmp(o, "swap")) { if(!idx(t.v[2], j)) printf("skip"); else { l->swap(*B::v[j]); printf("-"); } }
     else if(!strcmp(o, "eq")) { if(!idx(t.v[2], j)) printf("skip"); else printf((*l == *B::v[j]) ? "true" : "false"); }
     else if(!strcmp(o, "ne")) { if(!idx(t.v[2], j)) printf("skip"); else printf((*l != *B::v[j]) ? "true" : "false"); }
-    else if(!strcmp(o, "copy")) { if(!idx(t.v[2], j) || j == i) printf("skip"); else { C* n = new C(*B::v[j]); delete B::v[i]; B::v[i] = n; printf("-"); } }
-    else if(!strcmp(o, "asg")) { if(!idx(t.v[2], j) || j == i) printf("skip"); else { *l = *B::v[j]; printf("-"); } }
+    else if(!strcmp(o, "copy")) { if(!idx(t.v[2], j)) printf("skip"); else { C* n = new C(*B::v[j]); delete B::v[i]; B::v[i] = n; printf("-"); } }
+    else if(!strcmp(o, "asg")) { if(!idx(t.v[2], j)) printf("skip"); else { *l = *B::v[j]; printf("-"); } }
     else if(!strcmp(o, "sort")) { l->sort(); printf("-"); }
     else printf("?unknown-op");
     B::state_out(var);
@@ -323,7 +324,7 @@ template<class T> struct PListCase : NodeCase<PoolList<T> >
     else if(!strcmp(o, "remf")) { if(l->size() == 0) printf("skip"); else { typename C::Iterator r = l->removeFront(); print_it("it", *l, r); B::set_it(*l, r); } }
     else if(!strcmp(o, "remb")) { if(l->size() == 0) printf("skip"); else { typename C::Iterator r = l->removeBack(); print_it("it", *l, r); B::set_it(*l, r); } }
     else if(!strcmp(o, "clear")) { l->clear(); printf("-"); }
-    else if(!strcmp(o, "swap")) { if(!idx(t.v[2], j) || j == i) printf("skip"); else { l->swap(*B::v[j]); printf("-"); } }
+    else if(!strcmp(o, "swap")) { if(!idx(t.v[2], j)) printf("skip"); else { l->swap(*B::v[j]); printf("-"); } }
     else printf("?unknown-op");
     B::state_out(var);
   }
@@ -385,8 +386,8 @@ template<class T> struct ArrayCase
     if(!okI) printf("skip");
     else if(!strcmp(o, "new")) { delete v[i]; v[i] = new C; printf("-"); }
     else if(!strcmp(o, "newc")) { long n = atol(t.v[2]); if(n < 0) printf("skip"); else { delete v[i]; v[i] = new C((usize)n); printf("-"); } }
-    else if(!strcmp(o, "copy")) { if(!idx(t.v[2], j) || j == i) printf("skip"); else { C* n = new C(*v[j]); delete v[i]; v[i] = n; printf("-"); } }
-    else if(!strcmp(o, "asg")) { if(!idx(t.v[2], j) || j == i) printf("skip"); else { *a = *v[j]; printf("-"); } }
+    else if(!strcmp(o, "copy")) { if(!idx(t.v[2], j)) printf("skip"); else { C* n = new C(*v[j]); delete v[i]; v[i] = n; printf("-"); } }
+    else if(!strcmp(o, "asg")) { if(!idx(t.v[2], j)) printf("skip"); else { *a = *v[j]; printf("-"); } }
     else if(!strcmp(o, "res")) { long n = atol(t.v[2]); if(n < 0) printf("skip"); else { a->reserve((usize)n); printf("-"); } }
     else if(!strcmp(o, "rsz")) { long n = atol(t.v[2]); if(n < 0) printf("skip"); else { a->resize((usize)n); printf("-"); } }
     else if(!strcmp(o, "rszv")) { long n = atol(t.v[2]); if(n < 0) printf("skip"); else { a->resize((usize)n, T(atoi(t.v[3]))); printf("-"); } }
@@ -396,7 +397,22 @@ template<class T> struct ArrayCase
       long k = &r - raw;
       if(k >= 0 && (usize)k < a->size()) printf("ref=%ld:%d", k, val(r)); else printf("ref=INVALID");
     }
-    else if(!strcmp(o, "appa")) { if(!idx(t.v[2], j) || j == i) printf("skip"); else { a->append(*v[j]); printf("-"); } }
+    else if(!strcmp(o, "appe")) { // append(a[k]): the argument refers to an element of the array itself
+      long k = atol(t.v[2]);
+      if(k < 0 || (usize)k >= a->size()) printf("skip");
+      else {
+        T& r = a->append((*a)[k]);
+        const T* raw = *a;
+        long p = &r - raw;
+        if(p >= 0 && (usize)p < a->size()) printf("ref=%ld:%d", p, val(r)); else printf("ref=INVALID");
+      }
+    }
+    else if(!strcmp(o, "rsze")) { // resize(n, a[k])
+      long n = atol(t.v[2]), k = atol(t.v[3]);
+      if(n < 0 || k < 0 || (usize)k >= a->size()) printf("skip");
+      else { a->resize((usize)n, (*a)[k]); printf("-"); }
+    }
+    else if(!strcmp(o, "appa")) { if(!idx(t.v[2], j)) printf("skip"); else { a->append(*v[j]); printf("-"); } }
     else if(!strcmp(o, "appb")) {
       int n = t.n - 2;
       T* buf = (T*)malloc(n ? sizeof(T) * n : 1); // exact size: an over-read is an ASan report
@@ -416,7 +432,7 @@ template<class T> struct ArrayCase
     else if(!strcmp(o, "remb")) { if(a->size() == 0) printf("skip"); else { typename C::Iterator r = a->removeBack(); print_it(*a, r); } }
     else if(!strcmp(o, "find")) { typename C::Iterator r = a->find(T(atoi(t.v[2]))); print_it(*a, r); }
     else if(!strcmp(o, "clear")) { a->clear(); printf("-"); }
-    else if(!strcmp(o, "swap")) { if(!idx(t.v[2], j) || j == i) printf("skip"); else { a->swap(*v[j]); printf("-"); } }
+    else if(!strcmp(o, "swap")) { if(!idx(t.v[2], j)) printf("skip"); else { a->swap(*v[j]); printf("-"); } }
     else printf("?unknown-op");
     state_out();
   }
